@@ -69,7 +69,7 @@ def hint_pool(tier, seed):
             if '[' not in name or any(name.endswith(f'[{l}]') for l in ('int', 'str', 'UA', 'Lit1', 'bool', 'object', 'TU', 'TB')) \
                     or (',' in name and i % 5 == 0):
                 keep.append((name, h))
-        out = keep[:230] + grammar.annotated_hints(1, limit=24)[:24] + [h for h in grammar.special_hints() if 'Any' not in h[0] and 'LiteralString' not in h[0] and 'Unpack' not in h[0] and '*tuple' not in h[0]][::4] + TWINS + CALLABLES + DEEP_UNIONS
+        out = keep[:230] + grammar.annotated_hints(1, limit=24)[:24] + [h for h in grammar.special_hints() if 'Any' not in h[0] and 'LiteralString' not in h[0] and 'Unpack' not in h[0] and '*tuple' not in h[0] and 'ARec' not in h[0]][::4] + TWINS + CALLABLES + DEEP_UNIONS
     else:
         quick = hint_pool('quick', seed)
         out = quick + out[:700] + grammar.special_hints() + grammar.hints_depth2_curated()[::4] + [
@@ -80,7 +80,7 @@ def hint_pool(tier, seed):
         # a class hint with origin `object`, so everything is a subhint of it); left out, see DESIGN 8.3
         keep_callables = {n for n, _h in CALLABLES}
         out = [(n, h) for n, h in out if 'Any' not in n and 'object' != n and ('Callable' not in n or n in keep_callables) and 'LiteralString' not in n
-               and 'Unpack' not in n and '*tuple' not in n]
+               and 'Unpack' not in n and '*tuple' not in n and 'ARec' not in n]   # (ARec: reference semantics of recursive aliases is a two-sided under-approximation, unusable on the right of <=)
         seen, ded = set(), []
         for n, h in out:
             if n not in seen:
